@@ -18,7 +18,7 @@ class Inconclusive(Exception):
 
 
 # ------------------------------------------------------------------ capture of the real plumbing
-def capture(backend, metadata):
+def capture(backend, metadata, transform_twice=False):
     """Run the REAL executor once on a small query carrying `metadata`; spy on jinja2 to capture the
     Environment keyword arguments and the context dictionary handed to every template.
     Returns dict(env_kwargs, contexts{file: ctx}, rendered{file: text}, template_dir)."""
@@ -49,6 +49,8 @@ def capture(backend, metadata):
     ex.executor._copy_template_file = spy_copy
     d = Path(tempfile.mkdtemp(prefix="c14"))
     try:
+        if transform_twice:
+            exe.apply_ast_transformations(parse_query(q))      # transformed, result dropped, transformed again (a caller that retries)
         a = exe.apply_ast_transformations(parse_query(q))
         exe.write_cpp_files(a, d)
         rendered = {p.name: p.read_text() for p in d.iterdir() if p.is_file()}
